@@ -137,7 +137,7 @@ impl Check for C02 {
         "C02"
     }
     fn profiles(&self) -> Vec<ProfileSpec> {
-        vec![ProfileSpec { name: "honest-swarm", quick: 15_000, thorough: 400_000 }]
+        vec![ProfileSpec { name: "honest-swarm", quick: 15_000, thorough: 1_000_000 }]
     }
     fn rule(&self) -> &'static str {
         "profile honest-swarm: 1-4 essential honest peers covering all pieces + 0-8 other honest peers (never unchoking, flapping, refusing, disconnecting Fin/Rst/mid-frame, partial seeds, dial-in leechers), random geometry, latencies, segmentation, short reads/writes, yields. Non-trivial: a run with >= 2 peers or at least one injected disconnect/refusal/choke flap. Distinct: distinct (interleaving hash, geometry class) among non-trivial runs."
@@ -236,7 +236,7 @@ impl Check for C03 {
         "C03"
     }
     fn profiles(&self) -> Vec<ProfileSpec> {
-        vec![ProfileSpec { name: "geometry", quick: 50_000, thorough: 1_500_000 }]
+        vec![ProfileSpec { name: "geometry", quick: 50_000, thorough: 3_750_000 }]
     }
     fn rule(&self) -> &'static str {
         "profile geometry: one honest seeder, no faults; piece length 1..600 (and special values) x 1-8 files with zero-length files, files inside one piece, boundaries on/off piece edges, short/full last piece, single/multi layout; end-to-end through the real download and the real extractor. Non-trivial: extraction ran. Distinct: distinct vectors of per-file classes (start aligned, end aligned, pieces spanned 0/1/2+, zero length) x interleaving hash."
@@ -328,8 +328,8 @@ impl Check for C04 {
     }
     fn profiles(&self) -> Vec<ProfileSpec> {
         vec![
-            ProfileSpec { name: "hostile-names", quick: 30_000, thorough: 900_000 },
-            ProfileSpec { name: "geometry", quick: 5000, thorough: 50_000 },
+            ProfileSpec { name: "hostile-names", quick: 30_000, thorough: 2_250_000 },
+            ProfileSpec { name: "geometry", quick: 5000, thorough: 125_000 },
         ]
     }
     fn rule(&self) -> &'static str {
@@ -458,8 +458,8 @@ impl Check for C18 {
     }
     fn profiles(&self) -> Vec<ProfileSpec> {
         vec![
-            ProfileSpec { name: "announce-url", quick: 20_000, thorough: 500_000 },
-            ProfileSpec { name: "geometry", quick: 2000, thorough: 20_000 },
+            ProfileSpec { name: "announce-url", quick: 20_000, thorough: 1_250_000 },
+            ProfileSpec { name: "geometry", quick: 2000, thorough: 50_000 },
         ]
     }
     fn rule(&self) -> &'static str {
